@@ -186,13 +186,21 @@ def fam_composite(E, real=False):
         cv = yield (t0 & t1) | t2
         log('op', 'fired', tuple(i for i, t in enumerate((t0, t1, t2)) if t in cv))
 
+    def op2_waiter():
+        # an inner any-condition that may fire long before the outer all-condition; members of
+        # the inner one that fire in between belong to the outer value as well
+        t0, t1 = env.timeout(d[0], value=marks[0]), env.timeout(d[1], value=marks[1])
+        t2 = env.timeout(d[2], value=marks[2])
+        cv = yield (t0 | t1) & t2
+        log('op2', 'fired', tuple(i for i, t in enumerate((t0, t1, t2)) if t in cv))
+
     def plain():
         for i in range(3):
             t0 = env.now
             v = yield env.timeout(d[i], value=marks[i])
             log('pl', 'timeout', i, t0, v is marks[i])
 
-    for p in (parent, any_waiter, all_waiter, op_waiter, plain):
+    for p in (parent, any_waiter, all_waiter, op_waiter, op2_waiter, plain):
         env.process(p())
     out = run_env(E, env, log)
     bad = classify_run_exception(out.exc, allowed=())
@@ -218,6 +226,16 @@ def fam_composite(E, real=False):
                         ('member %d fired at %r before %r but is not exposed: %r', i, d[i], op[2], op[3]))
             elif GT(d[i], op[2]):
                 E.prove(i not in op[3], 'condition-exposes-only-fired-members')
+        op2 = log.first('op2', 'fired')
+        if E.prove(op2 is not None, 'conditions-fire'):
+            E.prove(EQ(op2[2], MAX(MIN(d[0], d[1]), d[2])), 'operator-conditions-compose')
+            for i in range(3):
+                if LT(d[i], op2[2]):
+                    E.prove(i in op2[3], 'nested-condition-exposes-fired-members',
+                            ('(t0|t1)&t2: member %d fired at %r before %r but is not exposed: %r',
+                             i, d[i], op2[2], op2[3]))
+                elif GT(d[i], op2[2]):
+                    E.prove(i not in op2[3], 'condition-exposes-only-fired-members')
         E.prove(all(an[4]) and all(al[4]), 'condition-value-maps-members-to-their-values')
         E.prove(al[3] == (0, 1, 2), 'AllOf-exposes-all-members')
         # AnyOf exposes exactly the members that have fired by then
